@@ -24,7 +24,8 @@ func init() {
 			"s1burst":  {N: func(t string) int { return tierN(t, 120, 20000) }, Case: c16Burst},
 			"s2window": {N: func(t string) int { return tierN(t, 40, 6000) }, Case: c16Window},
 			"s3stop":   {N: func(t string) int { return tierN(t, 80, 20000) }, Case: c16Stop},
-			"s4order":  {N: func(t string) int { return tierN(t, 100, 9000) }, Case: c16Order, Batch: 4},
+			"s4order":  {N: func(t string) int { return tierN(t, 120, 9600) }, Case: c16Order, Batch: 4},
+			"s5jobs":   {N: func(t string) int { return tierN(t, 60, 8000) }, Case: c16Jobs},
 		},
 	})
 }
@@ -35,6 +36,12 @@ type c16Job struct {
 	started  atomic.Int64
 	finished atomic.Int64
 	gate     chan struct{}
+	// behaviours of hostile jobs
+	retErr     bool            // returns an error
+	waitCaller bool            // waits until its own context is done and returns the context's error
+	callerCtx  context.Context // sent with this context instead of the usual one
+	onDone     func()          // called once the job's context is done (gated jobs), before lingering
+	hold       chan struct{}   // after the context is done the job keeps running until this is closed
 }
 
 type c16Env struct {
@@ -62,7 +69,9 @@ func (e *c16Env) newJob(gated bool) *c16Job {
 
 func (e *c16Env) send(j *c16Job) {
 	ctx := context.Background()
-	if j.id%3 == 1 {
+	if j.callerCtx != nil {
+		ctx = j.callerCtx
+	} else if j.id%3 == 1 {
 		// the caller's context is cancelled right after Send returned (a request-scoped context):
 		// the job was accepted and must run all the same
 		c, cancel := context.WithCancel(ctx)
@@ -77,12 +86,26 @@ func (e *c16Env) send(j *c16Job) {
 			select {
 			case <-j.gate:
 			case <-ctx.Done():
+				if j.onDone != nil {
+					j.onDone()
+				}
+				if j.hold != nil {
+					<-j.hold
+				}
 				time.Sleep(e.lingerAfterCancel)
 			}
 		}
+		var err error
+		if j.waitCaller {
+			<-ctx.Done()
+			err = ctx.Err()
+		}
+		if j.retErr {
+			err = fmt.Errorf("job %d failed", j.id)
+		}
 		j.finished.Store(e.now())
 		e.running.Add(-1)
-		return nil
+		return err
 	}})
 }
 
@@ -131,6 +154,25 @@ func (e *c16Env) quiesce(c *rt.CaseResult, replay map[string]any) bool {
 			if idleRounds == 3 {
 				replay["pool_state"] = fmt.Sprintf("%+v", e.pool.VerifState())
 				c.Violate("deferred-jobs-not-flushed workers-idle channel-empty", fmt.Sprintf("%d job(s) stay in the deferred list although no job was running and the channel was empty in three consecutive looks: the flusher role is held by nobody who flushes", st.Deferred), replay)
+				return false
+			}
+			lastChange = time.Now()
+		}
+		if st.ChanLen > 0 && st == lastBusy && time.Since(lastChange) > 3*time.Second {
+			// jobs sit in the channel and nothing has moved for three seconds: if no job is running
+			// either, no worker is taking them (a live, free worker receives at once)
+			idleRounds := 0
+			for round := 0; round < 3; round++ {
+				rt.Beat()
+				now := e.pool.VerifState()
+				if e.running.Load() == 0 && now.ChanLen >= st.ChanLen {
+					idleRounds++
+				}
+				time.Sleep(400 * time.Millisecond)
+			}
+			if idleRounds == 3 {
+				replay["pool_state"] = fmt.Sprintf("%+v", e.pool.VerifState())
+				c.Violate("queued-jobs-not-taken workers-gone", fmt.Sprintf("%d accepted job(s) stay in the channel although no job was running in three consecutive looks: no worker is receiving any more", st.ChanLen), replay)
 				return false
 			}
 			lastChange = time.Now()
@@ -405,7 +447,7 @@ func c16Order(tier string, seed int64, idx int, scratch string) rt.CaseResult {
 	var c rt.CaseResult
 	rt.SetWatchdogLimit(30 * time.Second)
 	rng := seqrun.Rng(seed, "C16o", idx)
-	patterns := []string{"send-before-run", "stop-stop-concurrent", "run-stop-run", "stop-before-run", "send-during-stop", "run-run-concurrent", "random", "stop-racing-runs", "restart-with-deferred", "first-deferral-racing-stop"}
+	patterns := []string{"send-before-run", "stop-stop-concurrent", "run-stop-run", "stop-before-run", "send-during-stop", "run-run-concurrent", "random", "stop-racing-runs", "restart-with-deferred", "first-deferral-racing-stop", "send-from-job-during-stop", "send-while-stop-waits"}
 	pat := patterns[idx%len(patterns)]
 	e := &c16Env{pool: verif.NewPool(verif.PoolOptions{NumWorkers: 1 + rng.Intn(2), SendDuration: time.Microsecond}), t0: time.Now()}
 	fmt.Fprintf(stderrW, "C16 pattern %s\n", pat)
@@ -544,6 +586,66 @@ func c16Order(tier string, seed int64, idx int, scratch string) rt.CaseResult {
 			}
 			e.pool.Stop()
 		}
+	case "send-from-job-during-stop":
+		// a job that is in flight when Stop is called hands a follow-up job to the pool before it
+		// returns (a job is a caller like any other): Stop must still return, the Send too
+		for round := 0; round < 20; round++ {
+			rt.Beat()
+			e.pool.Run(bg)
+			j := e.newJob(true)
+			j.onDone, j.callerCtx = send, bg
+			e.send(j)
+			for j.started.Load() == 0 {
+				runtime.Gosched()
+			}
+			if round%2 == 1 {
+				send()
+				send()
+				send() // channel full: the job's own Send takes the deferred path
+			}
+			e.pool.Stop()
+			if j.finished.Load() == 0 {
+				c.Violate("stop-returned-with-running-jobs job-sends", "Stop returned while the job that was in flight (and called Send) had not finished", map[string]any{"pattern": pat, "seed": seed, "case": idx})
+			}
+		}
+	case "send-while-stop-waits":
+		// Stop is waiting for an in-flight job that takes its time; a Send from another goroutine
+		// must return (accepted or refused) without waiting for that job: decided logically, the job
+		// is only let go once the Send has returned
+		for round := 0; round < 12; round++ {
+			rt.Beat()
+			e.pool.Run(bg)
+			j := e.newJob(true)
+			j.hold = make(chan struct{})
+			cancelled := make(chan struct{})
+			j.onDone, j.callerCtx = func() { close(cancelled) }, bg
+			e.send(j)
+			for j.started.Load() == 0 {
+				runtime.Gosched()
+			}
+			stopped := make(chan struct{})
+			go func() { e.pool.Stop(); close(stopped) }()
+			<-cancelled // Stop has cancelled the pool's context and is (about to be) waiting for j
+			for i := 0; i < (round%4)*2000; i++ {
+				runtime.Gosched()
+			}
+			sent := make(chan struct{})
+			go func() { send(); close(sent) }()
+			select {
+			case <-sent:
+			case <-stopped:
+				c.Violate("stop-returned-with-running-jobs held-job", "Stop returned while a job was still running", map[string]any{"pattern": pat, "seed": seed, "case": idx})
+				<-sent
+			case <-time.After(20 * time.Second):
+				c.Violate("send-waited-for-stop", "a Send issued while Stop was waiting for an in-flight job did not return until that job was let go (Send must return promptly, not wait for jobs)", map[string]any{"pattern": pat, "seed": seed, "case": idx})
+				close(j.hold)
+				<-sent
+				<-stopped
+				return c
+			}
+			close(j.hold)
+			<-stopped
+		}
 	case "run-run-concurrent":
 		par(func() { e.pool.Run(bg) }, func() { e.pool.Run(bg) })
 		send()
@@ -574,6 +676,80 @@ func c16Order(tier string, seed int64, idx int, scratch string) rt.CaseResult {
 	c.AddDistinct("s4/" + pat)
 	if idx == 0 {
 		c.Sample = map[string]any{"scenario": "S4", "pattern": pat}
+	}
+	return c
+}
+
+// c16Jobs: jobs that misbehave the way real jobs do - they fail, their caller's context expires or is
+// cancelled while they run and they return that context's error - must not cost the pool anything:
+// every job accepted afterwards runs exactly once, on every worker count, direct and deferred path.
+func c16Jobs(tier string, seed int64, idx int, scratch string) rt.CaseResult {
+	var c rt.CaseResult
+	rng := seqrun.Rng(seed, "C16j", idx)
+	workers := 1 + rng.Intn(4)
+	sd := []time.Duration{1, time.Microsecond, 50 * time.Microsecond, time.Millisecond}[rng.Intn(4)]
+	e := &c16Env{workers: workers, pool: verif.NewPool(verif.PoolOptions{NumWorkers: workers, SendDuration: sd}), t0: time.Now()}
+	tr := conc.NewTracer(false)
+	tr.Perturb(30, 200, uint64(seed)*23+uint64(idx))
+	tr.Install()
+	defer conc.Uninstall()
+	e.pool.Run(context.Background())
+	replay := map[string]any{"seed": seed, "case": idx, "workers": workers, "send_duration": sd.String()}
+	kinds := map[string]int{}
+	waves := 1 + rng.Intn(3)
+	for w := 0; w < waves; w++ {
+		hostile := workers + rng.Intn(2*workers+2)
+		var cancels []context.CancelFunc
+		for i := 0; i < hostile; i++ {
+			j := e.newJob(false)
+			switch k := rng.Intn(4); k {
+			case 0:
+				j.retErr = true
+				j.callerCtx = context.Background()
+				kinds["fails"]++
+			case 1: // the caller gives up while the job runs
+				ctx, cancel := context.WithCancel(context.Background())
+				j.callerCtx, j.waitCaller = ctx, true
+				cancels = append(cancels, cancel)
+				kinds["caller-cancels-while-running"]++
+			case 2: // the caller's deadline expires while the job runs
+				ctx, cancel := context.WithTimeout(context.Background(), time.Duration(50+rng.Intn(500))*time.Microsecond)
+				j.callerCtx, j.waitCaller = ctx, true
+				cancels = append(cancels, func() { _ = cancel })
+				kinds["caller-deadline-while-running"]++
+			default: // fails, and its caller has gone meanwhile
+				ctx, cancel := context.WithCancel(context.Background())
+				j.callerCtx, j.waitCaller, j.retErr = ctx, true, true
+				cancels = append(cancels, cancel)
+				kinds["fails-after-caller-left"]++
+			}
+			e.send(j)
+		}
+		time.Sleep(time.Duration(rng.Intn(400)) * time.Microsecond)
+		for _, cancel := range cancels {
+			cancel()
+		}
+		m := 1 + rng.Intn(4*workers+6)
+		for i := 0; i < m; i++ {
+			j := e.newJob(false)
+			j.callerCtx = context.Background()
+			e.send(j)
+		}
+		if !e.quiesce(&c, replay) {
+			break
+		}
+	}
+	if len(c.Violations) == 0 && len(c.Inconclusive) == 0 {
+		e.checkOnce(&c, replay, true)
+	}
+	replay["hostile_jobs"] = kinds
+	c.Evals = int64(len(e.jobs))
+	for k := range kinds {
+		c.AddDistinct(fmt.Sprintf("s5/workers=%d/%s/deferred=%v", workers, k, tr.Count("wpool.send.timeout") > 0))
+	}
+	e.pool.Stop()
+	if idx == 0 {
+		c.Sample = map[string]any{"scenario": "S5", "workers": workers, "waves": waves, "hostile_jobs": kinds}
 	}
 	return c
 }
